@@ -42,6 +42,9 @@ pub enum ModelParseError {
     #[error("A size written in the header is too large")]
     SizeOverflow,
 
+    #[error("The tree refers to an unknown question, node or PDF")]
+    MalformedTree,
+
     #[error("Failed to parse question: {0}")]
     QuestionParseError(#[from] jlabel_question::ParseError),
 }
